@@ -50,7 +50,7 @@ CHECKS = {
             "DESIGN.md section 4, C05"),
     "C10": ("exploration",
             "stateful property testing (rapid) with stalled/slow/blocked consumers; oracles = barrier completion, witness agreement, buffer-capacity lower bound, in-order subsequence",
-            "Generated trees in which a generated subset of plain subscribers never read, monitor handlers block and filtered subscriptions are left unread, while streams of up to 4x the buffer size are published. Barriers over the healthy nodes must complete (a blocked publisher shows up there), every healthy cache and strict mirror must be current at each barrier, healthy siblings must agree with their publisher's witness, the cache of an unread filtered subscription must stay current, and every released consumer must deliver at least min(sent, EventBufsiz) events as an in-order subsequence of what was sent.",
+            "Generated trees in which a generated subset of plain subscribers never read, monitor handlers block and filtered subscriptions are left unread, while streams of up to 4x the buffer size are published. Barriers over the healthy nodes must complete (a blocked publisher shows up there), every healthy cache and strict mirror must be current at each barrier, healthy siblings must agree with their publisher's witness, the cache of an unread filtered subscription must stay current, and every released consumer must deliver at least min(sent, EventBufsiz) events as an in-order subsequence of what was sent. Variations: partial resume after an overflow, resume under load, a stalled subscriber closed mid-burst, streams of up to 150 buffers, a stalled subscriber that meets the controller's shutdown with its buffer unread, and a structural check that no library goroutine is parked in a hand-over while consumers are away.",
             "No upper bound and no prefix-ness is demanded of a stalled consumer. Typed subscriptions as stalled consumers: see C20.",
             "DESIGN.md section 4, C10"),
     "C11": ("exploration",
